@@ -572,11 +572,15 @@ fn pick(st: &mut State, me: usize) -> Option<usize> {
     Some(chosen)
 }
 
+fn stall_ticks() -> u32 {
+    360
+}
+
 fn wait_for_token(mut st: MutexGuard<'static, State>, me: usize) {
     // a stall is declared only when NOBODY has made any progress for 180 s of wall clock: a blocked thread may
     // legitimately wait for as long as the others need
     let mut idle = 0u32;
-    let mut seen = (st.steps, st.quiet_ctr, st.log.len());
+    let mut seen = (st.steps, st.quiet_ctr, st.log.len(), st.rescues);
     loop {
         if st.free || st.current == me {
             return;
@@ -590,7 +594,7 @@ fn wait_for_token(mut st: MutexGuard<'static, State>, me: usize) {
         };
         st = g;
         if t.timed_out() {
-            let now = (st.steps, st.quiet_ctr, st.log.len());
+            let now = (st.steps, st.quiet_ctr, st.log.len(), st.rescues);
             if now == seen {
                 idle += 1;
             } else {
@@ -605,6 +609,9 @@ fn wait_for_token(mut st: MutexGuard<'static, State>, me: usize) {
                     st.slots[cur].status = Status::BlockedOs;
                     st.rescues += 1;
                     let r = runnable(&mut st);
+                    if std::env::var_os("PSIM_DEBUG").is_some() {
+                        eprintln!("rescue by {}: holder {} set aside, runnable {:?}, statuses {:?}", me, cur, r, st.slots.iter().map(|s| s.status).collect::<Vec<_>>());
+                    }
                     if let Some(&next) = r.first() {
                         st.current = next;
                         sim().cv[next].notify_all();
@@ -613,10 +620,14 @@ fn wait_for_token(mut st: MutexGuard<'static, State>, me: usize) {
                         }
                     } else {
                         st.slots[cur].status = Status::Runnable;
+                        st.rescues -= 1;
                     }
                 }
             }
-            if idle > 360 {
+            if idle > stall_ticks() {
+                if std::env::var_os("PSIM_DEBUG").is_some() {
+                    eprintln!("stall seen by {}: current {}, statuses {:?}", me, st.current as isize, st.slots.iter().map(|s| s.status).collect::<Vec<_>>());
+                }
                 do_abort(&mut st, "stall: no thread has made a step for 180 s of wall clock");
                 return;
             }
@@ -632,6 +643,11 @@ fn yield_token(mut st: MutexGuard<'static, State>, me: usize) {
         return;
     }
     match pick(&mut st, me) {
+        None if st.slots.iter().any(|s| s.status == Status::BlockedOs) => {
+            // everybody waits for a thread that was set aside: the token stays unowned until it comes back
+            st.current = NO_SLOT;
+            wait_for_token(st, me);
+        }
         None => do_abort(&mut st, "deadlock: no runnable slot"),
         Some(next) => {
             if next != me {
@@ -700,6 +716,12 @@ fn event_ex(kind: Kind, stage: u16, a: u64, b: u64, may_yield: bool, spin: bool)
             if st.slots[me].status == Status::BlockedOs {
                 // a thread that was set aside while blocked is back: it rejoins the schedule here
                 st.slots[me].status = Status::Runnable;
+                if std::env::var_os("PSIM_DEBUG").is_some() {
+                    eprintln!("re-entry of {} at {:?}/{}: current {}", me, kind, stage, st.current as isize);
+                }
+                if st.current == NO_SLOT {
+                    st.current = me;
+                }
                 if st.current != me {
                     wait_for_token(st, me);
                     st = lock();
@@ -1038,10 +1060,17 @@ fn hook_worker_exit(panicking: bool) {
     }
     if st.current != me {
         // a thread that had been set aside (BlockedOs) ends without having got the token back
+        if st.current == NO_SLOT {
+            if let Some(next) = pick(&mut st, me) {
+                st.current = next;
+                sim().cv[next].notify_all();
+            }
+        }
         return;
     }
     st.steps += 1;
     match pick(&mut st, me) {
+        None if st.slots.iter().any(|s| s.status == Status::BlockedOs) => st.current = NO_SLOT,
         None => do_abort(&mut st, "deadlock: no runnable slot after a worker exit"),
         Some(next) => {
             st.current = next;
